@@ -305,12 +305,12 @@ def run(tier):
         ],
         assumptions=['os.replace / rename(2) within one directory is atomic'])
     effects = inventory(prog)
-    rule_r1(chk, prog, effects)
-    rule_r2(chk, prog, effects)
-    rule_r3(chk, prog)
-    rule_r4(chk, prog, effects)
+    chk.guard(rule_r1, chk, prog, effects)
+    chk.guard(rule_r2, chk, prog, effects)
+    chk.guard(rule_r3, chk, prog)
+    chk.guard(rule_r4, chk, prog, effects)
     from . import c05
-    c05.rule_adopt_write(chk, prog, 'C06.R5')
+    chk.guard(c05.rule_adopt_write, chk, prog, 'C06.R5')
     extra = None
     if tier == 'thorough':
         from .. import selftest
